@@ -277,11 +277,13 @@ func (w *senderWorld) newStream(kind string, bufs, at int) *streamState {
 
 func (w *senderWorld) callback(s *streamState) gostatsd.SendCallback {
 	return func(errs []error) {
-		if s.calls.Add(1) == 1 {
-			s.mu.Lock()
+		// the argument is stored before the count is published (idle() and the verdict poll the count)
+		s.mu.Lock()
+		if s.calls.Load() == 0 {
 			s.errs = append([]error(nil), errs...)
-			s.mu.Unlock()
 		}
+		s.calls.Add(1)
+		s.mu.Unlock()
 		w.logf("callback stream%d errs=%v", s.id, errStrings(errs))
 		w.cbSinceDial.Add(1)
 		w.progress.Add(1)
@@ -299,6 +301,7 @@ func (w *senderWorld) doSubmit(s *streamState, fromDriver bool) bool {
 	s.submitted.Store(true)
 	w.logf("submit stream%d (%s, %d bufs)", s.id, s.kind, s.bufs)
 	if err := w.submit(s); err != nil {
+		s.submitted.Store(false) // never handed over: it must not be counted as a request without callback
 		w.r.Inconclusive("sender:harness-sink-full")
 	}
 	w.progress.Add(1)
